@@ -319,8 +319,11 @@ class VolumeSubdivision(Logger):
         pcenter = sum([Vec(self.mesh.vertices[a]) for a in f ])/3 # barycenter
         self.mesh.vertices.append(pcenter)
         
-        for c in self.conn.face_to_cells(face_id):
-            iF = self.conn.in_cell_face_index(c,face_id)
+        # look the adjacent cells up in the current cell list: the connectivity computed when entering
+        # the block does not know about cells and faces created by previous operations
+        adjacent_cells = [c for c,cell in enumerate(self.mesh.cells) if (A in cell and B in cell and C in cell)]
+        for c in adjacent_cells:
+            iF = [i for i,v in enumerate(self.mesh.cells[c]) if v not in (A,B,C)][0]
             new_cells = []
             for i in range(4):
                 if i==iF : continue # opposite point in tet from face
